@@ -155,6 +155,9 @@ def render(spec):
                     L.append("%s.n%d %s= 1" % (mod_name(spec, j), j, sym))
                 elif kind == "assign_fn_member":
                     L.append("%s.bump%d = fn() -> int {\n\treturn 0\n}" % (mod_name(spec, j), j))
+                elif kind in WRONG_TYPE:
+                    # "with their declared types": an export used at another type than the one it was declared with
+                    L.append(WRONG_TYPE[kind] % {"m": mod_name(spec, j), "j": j})
                 if NEG_CLOSE:
                     L.append("}")
         L.append('print "leave %s"' % mod_name(spec, i))
@@ -220,6 +223,17 @@ def render(spec):
     return res
 
 
+WRONG_TYPE = {
+    "wrong_type_dot": "wty: str = %(m)s.n%(j)d",
+    "wrong_type_dot_list": "wty: [str...] = %(m)s.cell%(j)d",
+    "wrong_type_dot_fn": "wty: fn() -> str = %(m)s.bump%(j)d",
+    "wrong_type_dot_call": "print %(m)s.bump%(j)d(1)",
+    "wrong_type_name_list": "wty: [str...] = cell%(j)d",
+    "wrong_type_name_fn": "wty: fn() -> str = peek%(j)d",
+    "wrong_type_name_call": "print bump%(j)d(1)",
+}
+
+
 def _neg_line(spec, i):
     for st in spec["mods"][i]["stmts"]:
         if st[0] == "neg":
@@ -229,6 +243,8 @@ def _neg_line(spec, i):
             if kind.endswith("_inblock"):
                 kind = kind[:-8]
             p = import_path(spec, i, j)
+            if kind in WRONG_TYPE:
+                return WRONG_TYPE[kind] % {"m": mod_name(spec, j), "j": j}
             return {"import_hidden_typed": "import hidt%d from %s" % (j, p), "import_hidden_const": "import hidc%d from %s" % (j, p),
                     "dot_hidden_typed": "print %s.hidt%d" % (mod_name(spec, j), j), "dot_hidden_const": "print %s.hidc%d" % (mod_name(spec, j), j),
                     "import_hidden": "import hid%d from %s" % (j, p), "import_absent": "import nope%d from %s" % (j, p),
@@ -336,6 +352,10 @@ def generate(rng, max_mods=5, negative=False):
                 # the same write attempts from inside a function body of the importer
                 kinds += ["assign_member_infn", "assign_member_infn", "opassign_member_infn", "opassign_member_mod_infn",
                           "assign_fn_member_infn", "dot_hidden_infn"]
+                kinds += ["wrong_type_dot", "wrong_type_dot_list", "wrong_type_dot_fn", "wrong_type_dot_call", "wrong_type_dot_infn",
+                          "wrong_type_dot_call_infn"]
+            if "names" in forms:
+                kinds += ["wrong_type_name_list", "wrong_type_name_fn", "wrong_type_name_call", "wrong_type_name_call_infn"]
             # the module is imported in module form INSIDE a block only (at the top level the file imports its names at most), and
             # written to in that block
             block_cands = [(a, int(b)) for a in range(n) for b, fs in spec["mods"][a]["imported"].items() if not bare[int(b)] and "mod" not in fs]
@@ -385,7 +405,10 @@ def valid(spec):
                 if st[1].endswith("_inblock"):
                     if (st[2], "mod") in seen:
                         return False
-                elif (st[1].endswith("_infn") or st[1] in ("dot_hidden", "dot_hidden_typed", "dot_hidden_const", "assign_module", "assign_member", "assign_fn_member") or st[1].startswith("opassign_member")) and (st[2], "mod") not in seen:
+                elif st[1].startswith("wrong_type_name"):
+                    if (st[2], "names") not in seen:
+                        return False
+                elif (st[1].endswith("_infn") or st[1].startswith("wrong_type_dot") or st[1] in ("dot_hidden", "dot_hidden_typed", "dot_hidden_const", "assign_module", "assign_member", "assign_fn_member") or st[1].startswith("opassign_member")) and (st[2], "mod") not in seen:
                     return False
         if not state and any(s[0] in ("defvia",) for s in m["stmts"]):
             return False
